@@ -2,6 +2,8 @@
 //! One binary, several modes; every mode reads operation lines on stdin and answers one result
 //! line per operation on stdout (see DESIGN.md §2.2, Appendix A).
 mod node;
+mod perm;
+mod perm_gen;
 mod util;
 
 fn main() {
@@ -18,6 +20,7 @@ fn main() {
         .unwrap();
     match mode {
         "node" => rt.block_on(node::run()),
+        "perm" => perm::run(&args[2..]),
         "hash" => {
             // one hex string per line -> xxhash32 as the server computes it (keys, named consumers)
             use std::io::{BufRead, Write};
